@@ -8,10 +8,14 @@ import (
 	"os/exec"
 	"strings"
 
+	"google.golang.org/protobuf/encoding/prototext"
 	vh "google.golang.org/protobuf/internal/zz_verif_vh"
 	"google.golang.org/protobuf/proto"
+	"google.golang.org/protobuf/reflect/protodesc"
 	"google.golang.org/protobuf/reflect/protoreflect"
 	"google.golang.org/protobuf/reflect/protoregistry"
+	"google.golang.org/protobuf/types/descriptorpb"
+	"google.golang.org/protobuf/types/dynamicpb"
 )
 
 // ---------- C05: deterministic marshalling is a function of content ----------
@@ -311,6 +315,7 @@ func runUtf8(c *C) {
 	c.R.Rule = "messages over about 40 root types x {generated, dynamicpb} with invalid UTF-8 (lone continuation, overlong, surrogate, truncated, 0xff, > U+10FFFF) planted with probability 1/4 in every string position (singular, repeated element, map key, map value, oneof member, extension). Marshal must fail iff an *enforced* string position holds invalid UTF-8 (model: badUtf8); wire data carrying it must be refused exactly there and passed through unchanged elsewhere (bytes fields, non-enforced strings). Non-trivial = message contains at least one string; distinct by snapshot."
 	rs := roots(c)
 	per := c.N(60, 3000)
+	editionsExtCase(c)
 	for _, r := range rs {
 		r.Flat.Send(c)
 		for i := 0; i < per && !c.Failed(); i++ {
@@ -319,6 +324,46 @@ func runUtf8(c *C) {
 				utf8Case(c, r, m, dyn)
 			}
 		}
+	}
+}
+
+// editionsExtCase: an edition-2023 file with default features (utf8_validation = VERIFY, known by
+// construction, not asked of the implementation): a string *extension* field must be validated like a
+// regular string field.
+func editionsExtCase(c *C) {
+	fdp := &descriptorpb.FileDescriptorProto{}
+	if err := prototext.Unmarshal([]byte(`name: "verif_c13_ext.proto" package: "verif.c13" syntax: "editions" edition: EDITION_2023
+message_type { name: "M" field { name: "s" number: 1 type: TYPE_STRING label: LABEL_OPTIONAL } extension_range { start: 100 end: 200 } }
+extension { name: "xs" number: 100 type: TYPE_STRING label: LABEL_OPTIONAL extendee: ".verif.c13.M" }
+extension { name: "xr" number: 101 type: TYPE_STRING label: LABEL_REPEATED extendee: ".verif.c13.M" }`), fdp); err != nil {
+		c.Check(false, "cannot build the editions extension schema: "+err.Error(), nil, "")
+		return
+	}
+	fd, err := protodesc.NewFile(fdp, protoregistry.GlobalFiles)
+	if err != nil {
+		c.Check(false, "protodesc.NewFile: "+err.Error(), nil, "")
+		return
+	}
+	md := fd.Messages().Get(0)
+	bad := "bad\xff"
+	for i := 0; i < 3; i++ {
+		in := map[string]any{"schema": "edition 2023, default features; M{string s=1; extensions 100 to 200} extend M{string xs=100; repeated string xr=101}", "field": []string{"s", "xs", "xr"}[i], "value": "626164ff"}
+		m := dynamicpb.NewMessage(md)
+		switch i {
+		case 0:
+			m.Set(md.Fields().Get(0), protoreflect.ValueOfString(bad))
+		case 1:
+			m.Set(dynamicpb.NewExtensionType(fd.Extensions().Get(0)).TypeDescriptor(), protoreflect.ValueOfString(bad))
+		case 2:
+			m.Mutable(dynamicpb.NewExtensionType(fd.Extensions().Get(1)).TypeDescriptor()).List().Append(protoreflect.ValueOfString(bad))
+		}
+		_, err := proto.Marshal(m)
+		sig := ""
+		if i > 0 {
+			sig = "editions-extension-string-not-validated"
+		}
+		c.Check(err != nil, "Marshal accepts invalid UTF-8 in a string field with utf8_validation = VERIFY (edition 2023 default)", in, sig)
+		c.Case(fmt.Sprint("editions-ext-", i), true)
 	}
 }
 
